@@ -37,8 +37,12 @@ MANIFEST = {
              "free-running executions of the real rescan (random schedules on an 11-block tree with two forks, real "
              "100 ms retry timer, up to 400 steps) are recorded, judged by the same operators and checked by TLC to be "
              "behaviours of Rescan.tla (TraceRescan.tla).",
-        note="Bounded: trees of <=8 blocks with one fork, <=4 transactions, <=3 chain extensions, <=3 rolled-back blocks, "
-             "<=2 injected fetch failures, <=1 update. The caller's start block is on the chain when the rescan "
+        note="Bounded: trees of <=7 blocks with one fork (after the start block, one or two blocks above it) for the "
+             "exhaustive part, 11 blocks with two forks for the free-running part; <=7 transactions with several "
+             "inputs/outputs (create->spend through first and later outputs, external outpoints); <=5 chain extensions, "
+             "<=4 rolled-back blocks (reorganisations up to the start block, stale parent fetchable or not), <=2 injected "
+             "fetch failures, <=1 update (2 in free runs). Where the real rescan leaves the model's prediction the driver "
+             "lets it run on to quiescence so that the consequences are judged. The caller's start block is on the chain when the rescan "
              "initialises; EndBlock and DisableDisconnectedNtfns are not used. The 100 ms retry timer is real: a path on "
              "which it fires before the path asked for it is cut there and its history judged as observed. A panic of "
              "the rescan goroutine would end the driver (exit 2), it is not turned into a verdict. Trusts TLC, the "
@@ -57,43 +61,56 @@ CODE_VERSION = json.load(open(os.path.join(SPEC, "code_version.json")))
 # specs/Rescan/RescanUniverse.tla for the encoding.
 FORK = dict(
     Parent=[-1, 0, 1, 2, 1, 4, 5],
-    TxPays=[1, 0, 2, 0], TxSpends=[0, 1, 0, 5], ExtScript=[3],
+    TxOuts=[[1, 4], [0], [2], [0]], TxIns=[[0], [11], [0], [1]], ExtScript=[3],
     BlockTxs=[[], [], [1, 3], [2, 4], [3], [1, 2, 4], []],
-    StartB=0, StartT=1, InitWatch=[1], InitChain=[0, 1, 2], InitFH=2,
-    Updates=[dict(add=[2, 105], rw=1), dict(add=[2, 105], rw=0)])
+    StartB=0, StartT=1, InitWatch=[1, 4], InitChain=[0, 1, 2], InitFH=2,
+    Updates=[dict(add=[2, 101], rw=1), dict(add=[2, 101], rw=0)])
 
 UNIVERSES = {
     # fork after block 1; A-branch 2,3 ; B-branch 4(2'),5(3'),6(4').  T1 pays the
-    # watched address 1, T2 spends that output (in the next block on A, in the
-    # same block on B), T3 pays address 2 and T4 spends the external outpoint
-    # 5 (both added by the update, with or without rewind).
+    # watched addresses 1 and 4 (two outputs), T2 spends T1's SECOND output (in
+    # the next block on A, in the same block on B) and pays nobody, T3 pays
+    # address 2 and T4 spends the external outpoint 1 (both added by the update,
+    # with or without rewind).
     "fork": FORK,
     # the same tree entered at the tip: the rescan is current at once and the
     # reorganisation reaches it through notifications; the external outpoint is
     # watched from the start (WatchInputs)
-    "tip": dict(FORK, InitChain=[0, 1, 2, 3], InitFH=3, StartB=2, InitWatch=[1, 105]),
+    "tip": dict(FORK, InitChain=[0, 1, 2, 3], InitFH=3, StartB=2, InitWatch=[1, 4, 101]),
     # start time after height 2: blocks 1,2 are not scanned; start below the fork
-    "late": dict(FORK, StartT=3, InitChain=[0, 1, 2, 3], InitFH=3, StartB=1, InitWatch=[1, 105],
+    "late": dict(FORK, StartT=3, InitChain=[0, 1, 2, 3], InitFH=3, StartB=1, InitWatch=[1, 4, 101],
                  BlockTxs=[[], [3], [1], [2], [1], [2, 3], [4]],
-                 Updates=[dict(add=[2], rw=2), dict(add=[101], rw=1)]),
+                 Updates=[dict(add=[2], rw=2), dict(add=[110], rw=1)]),
     # filter headers trail block headers
     "lag": dict(FORK, InitChain=[0, 1, 2], InitFH=1, Lag=True),
     # empty watch list at the start
-    "nowatch": dict(FORK, InitWatch=[], Updates=[dict(add=[1], rw=1)]),
+    "nowatch": dict(FORK, InitWatch=[], Updates=[dict(add=[1, 4], rw=1)]),
     # a longer main branch 1-2-3-4 with a fork after 2 (5 = 3', 6 = 4'): several
     # blocks can wait in the retry queue while the chain reorganises under them
     "retry": dict(Parent=[-1, 0, 1, 2, 3, 2, 5],
-                  TxPays=[1, 0], TxSpends=[0, 1], ExtScript=[],
+                  TxOuts=[[1], [0]], TxIns=[[0], [10]], ExtScript=[],
                   BlockTxs=[[], [], [], [1], [2], [1], [2]],
                   StartB=1, StartT=1, InitWatch=[1], InitChain=[0, 1, 2], InitFH=2,
                   Updates=[dict(add=[2], rw=1)]),
+    # the fork is at the START block: A-branch 1,2 ; B-branch 3(1'),4(2'),5(3').  A
+    # reorganisation while the rescan catches up goes two blocks deep below its
+    # current block, so the parent of its stale current block is stale as well
+    # (no longer fetchable by hash) while the chain has OTHER blocks at those heights.
+    # T1 has three outputs (nobody, watched 1, watched 4); T2 spends the last one.
+    "deep": dict(Parent=[-1, 0, 1, 0, 3, 4],
+                 TxOuts=[[0, 1, 4], [0]], TxIns=[[0], [12]], ExtScript=[],
+                 BlockTxs=[[], [1], [2], [], [1], [2]],
+                 StartB=0, StartT=1, InitWatch=[1, 4], InitChain=[0, 1, 2], InitFH=2,
+                 Updates=[dict(add=[2], rw=1)]),
     # free-running executions: main branch 1-5, fork after 2 (6,7,8), fork of the
-    # fork after 6 (9,10); two create->spend chains, an external outpoint
+    # fork after 6 (9,10); create->spend chains through first and later outputs,
+    # an external outpoint
     "big": dict(Parent=[-1, 0, 1, 2, 3, 4, 2, 6, 7, 6, 9],
-                TxPays=[1, 0, 2, 0, 1, 0], TxSpends=[0, 1, 0, 7, 0, 5], ExtScript=[3],
-                BlockTxs=[[], [], [1], [2, 3], [4], [5], [3], [1, 2, 4], [5, 6], [4, 1], [5, 2]],
-                StartB=1, StartT=2, InitWatch=[1, 107], InitChain=[0, 1, 2, 3], InitFH=3,
-                Updates=[dict(add=[2], rw=2), dict(add=[2], rw=0), dict(add=[105], rw=1)]),
+                TxOuts=[[1, 4], [0], [2], [0], [4, 0, 1], [0], [0]],
+                TxIns=[[0], [11], [0], [1], [0], [52], [10, 0]], ExtScript=[3],
+                BlockTxs=[[], [], [1], [2, 3], [4, 7], [5], [3], [1, 2, 4], [5, 6], [4, 1], [5, 2, 7]],
+                StartB=1, StartT=2, InitWatch=[1, 4, 101], InitChain=[0, 1, 2, 3], InitFH=3,
+                Updates=[dict(add=[2], rw=2), dict(add=[2], rw=0), dict(add=[150], rw=1)]),
 }
 UNIVERSES["biglag"] = dict(UNIVERSES["big"], InitFH=2, Lag=True)
 
@@ -109,9 +126,43 @@ def universe(name):
     u = dict(UNIVERSES[name])
     u.setdefault("Lag", False)
     u["NB"] = len(u["Parent"])
-    u["NT"] = len(u["TxPays"])
+    u["NT"] = len(u["TxOuts"])
     u["Height"] = _heights(u["Parent"])
+    _validate(name, u)
     return u
+
+
+def _out_script(u, o):
+    if o >= 10:
+        t, j = divmod(o, 10)
+        return u["TxOuts"][t - 1][j] if t <= u["NT"] and j < len(u["TxOuts"][t - 1]) else 0
+    return u["ExtScript"][o - 1] if 1 <= o <= len(u["ExtScript"]) else 0
+
+
+def _validate(name, u):
+    """A universe the encoding cannot express is a harness error, not drift."""
+    def bad(msg):
+        raise core.MachineryError("universe %s: %s" % (name, msg))
+    if u["NT"] > 9 or len(u["TxIns"]) != u["NT"] or len(u["BlockTxs"]) != u["NB"]:
+        bad("sizes")
+    for b, p in enumerate(u["Parent"]):
+        if b and not (0 <= p < b):
+            bad("parent of block %d" % b)
+    for t in range(1, u["NT"] + 1):
+        if len(u["TxOuts"][t - 1]) > 10 or not u["TxOuts"][t - 1] or not u["TxIns"][t - 1]:
+            bad("tx %d needs 1..10 outputs and an input" % t)
+        for o in u["TxIns"][t - 1]:
+            if o >= 10 and (o // 10 >= t or o % 10 >= len(u["TxOuts"][o // 10 - 1])):
+                bad("tx %d spends %d" % (t, o))
+    items = list(u["InitWatch"]) + [i for x in u["Updates"] for i in x["add"]]
+    for it in items:
+        if it >= 100 and _out_script(u, it - 100) == 0:
+            bad("watched outpoint %d has no known script" % (it - 100))
+    if u["InitChain"][0] != 0 or u["StartB"] not in u["InitChain"] or not (0 <= u["InitFH"] < len(u["InitChain"])):
+        bad("initial chain")
+    for a, b in zip(u["InitChain"], u["InitChain"][1:]):
+        if u["Parent"][b] != a:
+            bad("initial chain is not a chain")
 
 
 def _seq(x):
@@ -127,7 +178,7 @@ def _seq(x):
 def write_universe(u, d):
     os.makedirs(d, exist_ok=True)
     lines = ["---- MODULE RescanUniverse ----", "EXTENDS Integers, Sequences"]
-    for k in ("NB", "Parent", "Height", "NT", "TxPays", "TxSpends", "ExtScript", "BlockTxs", "StartB",
+    for k in ("NB", "Parent", "Height", "NT", "TxOuts", "TxIns", "ExtScript", "BlockTxs", "StartB",
               "StartT", "InitWatch", "InitChain", "InitFH", "Updates"):
         lines.append("%s == %s" % (k, _seq(u[k])))
     lines.append("====")
@@ -147,6 +198,7 @@ SCENARIOS = {
         ("tip", dict(MaxExt=2, MaxRb=2, MaxFail=2, MaxUpd=0)),
         ("lag", dict(MaxExt=2, MaxRb=1, MaxUpd=0, Lag=True, MaxNotCur=1)),
         ("retry", dict(MaxExt=3, MaxRb=2, MaxFail=2, MaxUpd=0)),
+        ("deep", dict(MaxExt=4, MaxRb=3, MaxFail=1, MaxUpd=1, StaleFilterOK=True)),
     ],
     "thorough": [
         ("fork", dict(MaxExt=3, MaxRb=3, MaxFail=2, StaleFilterOK=True, WithQuit=True, MaxNotCur=1)),
@@ -155,6 +207,7 @@ SCENARIOS = {
         ("lag", dict(MaxExt=3, MaxRb=2, MaxFail=1, Lag=True, MaxNotCur=1)),
         ("nowatch", dict(MaxExt=3, MaxRb=2, MaxFail=1, MaxNotCur=1)),
         ("retry", dict(MaxExt=4, MaxRb=2, MaxFail=2, MaxUpd=1, StaleFilterOK=True)),
+        ("deep", dict(MaxExt=5, MaxRb=4, MaxFail=1, MaxUpd=1, StaleFilterOK=True)),
     ],
 }
 
